@@ -11,7 +11,7 @@ def sh(c):
     return subprocess.run(c, shell=True, stdout=subprocess.PIPE, stderr=subprocess.STDOUT, text=True)
 
 
-seeds = sorted(d for d in os.listdir(V + "/seeded") if os.path.isdir(V + "/seeded/" + d))
+seeds = sorted(d for d in os.listdir(V + "/seeded") if os.path.exists(V + "/seeded/" + d + "/meta.json"))
 evbak = tempfile.mkdtemp(); shutil.copytree(V + "/evidence", evbak, dirs_exist_ok=True)
 out = {}
 for s in seeds:
@@ -36,10 +36,16 @@ for s in seeds:
             ex = sh("echo 'zone export %s' | %s/build/oracle" % (zn.group(1), V)).stdout.strip()
             off0, body = ex.split(" ")
             grp.append("zone set %s %s %s" % (zn.group(1), off0, body))
+        # a failure that depends on the requests before it (state left over from earlier calls): keep the
+        # last few of them in front, in order
+        pre = d.get("preceding_requests_file")
+        if pre and os.path.exists(pre) and not req.startswith("zone "):
+            lines = [l for l in open(pre).read().split("\n") if l.strip()]
+            grp += lines[-6:]
         grp.append(req)
         out.setdefault(p, []).append("\n".join(grp))
     finally:
-        sh("git -C /repo checkout -- .")
+        sh("git -C /repo checkout -- . && git -C /repo clean -fdq -- .")
 os.makedirs(V + "/corpus", exist_ok=True)
 for p, groups in out.items():
     open("%s/corpus/%s.txt" % (V, p), "w").write("\n\n".join(groups) + "\n")
